@@ -42,6 +42,9 @@ CLAIMED = {
  "C11": dict(engine="link", design="4 C11", technique="TLA+ spec (StreamFraming: buffer of stream offsets, parse loop, compaction) model-checked by TLC for scaled constants; reads of the real readTlvStream and of the application StreamFace validated by TLC",
    text="TLC explores every stream of up to 4-5 blocks and every partition into reads on the implementation-shaped model (frames are blocks, unread region is the stream slice, no error, all delivered at EOF); the real readers are driven with streams many times the buffer and adversarial chunkings, each read judged by ReadOK.",
    note="Scaled constants in the exhaustive model (packet 4, buffer 12); real constants in traces. " + TB),
+ "C13": dict(engine="tlv", design="4 C13", technique="TLA+ spec (ParseLoop: generated ordered/unordered parse loop, critical rule) model-checked by TLC over all small model skeletons; round-trip and unknown-element experiments on every generated model (registry built at check time) validated by TLC",
+   text="TLC proves on the ParseLoop module that inserting an unrecognised non-critical element anywhere changes no other field's outcome and that a critical one rejects unless ignored, for every skeleton of up to 3 fields, both loop kinds and every valid input; every generated model discovered by scanning zz_generated.go is then driven with type-directed values: encode, independent TLV walk, decode contiguous and segmented, and an unknown element of each class at each top-level position, each outcome compared by TLC with ParseLoop!Expected. Open finding F30 (map key/value adjacency) is matched by signature.",
+   note="Generator-output equality (checked-in zz_generated.go = generator output) is not decided by this family (no state/oracle a TLA+ model adds); behavioural drift of stale generated code is still caught by the round-trip part. " + TB),
 }
 NOT_YET = "check not yet built in this commit (work in progress; see DESIGN.md section 4)"
 NA = {}
